@@ -448,7 +448,19 @@ def _conditions():
         # a user condition whose predicate *raises* for some values ('' -> IndexError): the error tree then carries a
         # captured cause, traceback chain included
         'first_upper': _COND_CACHE.setdefault('first_upper', _first_upper_condition()),
+        # conditions made by ONE user factory: same name, same code, different captured values - equal-looking, not equal
+        'oneof_ab': _COND_CACHE.setdefault('oneof_ab', _one_of('a', 'b')),
+        'oneof_xy': _COND_CACHE.setdefault('oneof_xy', _one_of('x', 'y')),
+        'oneof_ax': _COND_CACHE.setdefault('oneof_ax', _one_of('a', 'x')),
     }
+
+
+ONEOF = {'oneof_ab': ('a', 'b'), 'oneof_xy': ('x', 'y'), 'oneof_ax': ('a', 'x')}
+
+
+def _one_of(*allowed):
+    from pane.annotations import Condition
+    return Condition(lambda v: v in allowed, 'an allowed value')
 
 
 def _first_upper(s):
@@ -741,6 +753,8 @@ def _near_miss(ast, world, rng, rec):
         inner = ast[1]
         if cond == 'first_upper':
             return rng.choice(['', '', 'lower', '1st'])
+        if cond in ONEOF:
+            return rng.choice([w for w in ('a', 'b', 'x', 'y', 'q') if w not in ONEOF[cond]])
         if cond in NUM_CONDS:
             f = float if inner == ['s', 'float'] else int
             return {'Positive': f(rng.choice([0, -1, -12])), 'NonNegative': f(rng.choice([-1, -5])),
@@ -841,6 +855,8 @@ def sample_value(ast, world: World, rng, valid_p=0.8, alphabet='mixed', depth=0,
     if k == 'lit':
         return dec(rng.choice(ast[1:]))
     if k == 'ann':
+        if ast[2] in ONEOF:
+            return rng.choice(ONEOF[ast[2]])
         if ast[2] == 'first_upper':
             return rng.choice(['Abc', 'Zed', 'Éclair', 'X y', 'Q', 'Ünder', 'A\u0301', 'Ω']) if rng.random() < 0.85 else rec(ast[1])
         return rec(ast[1])
@@ -1019,7 +1035,7 @@ def _gen_type(rng, world: World, kinds, scalars, depth=0, max_depth=3, top=True,
         if rng.random() < 0.5:
             return ['ann', ['s', rng.choice(['int', 'float'])], rng.choice(NUM_CONDS)]
         if 'str' in scalars and rng.random() < 0.25:
-            return ['ann', ['s', 'str'], 'first_upper']
+            return ['ann', ['s', 'str'], rng.choice(['first_upper', 'first_upper', 'oneof_ab', 'oneof_xy', 'oneof_ax'])]
         return ['ann', [rng.choice(['list', 'tlist']), sub()], rng.choice(LEN_CONDS)]
     if k == 'tl':
         return ['tl'] + [sub(True) for _ in range(rng.choice([1, 2, 2, 3]))]
